@@ -24,6 +24,7 @@ def run(ctx):
             open(path, "w").write(p.stdout[-20000:])
             ctx.violations.append((path, "the race detector reported a data race while channels were used concurrently"))
             return ctx.finish()
+        ctx.check_library_panic(p.stdout, ["mux"])
         from vlib import Infra
         raise Infra("mux driver failed: " + p.stdout[-2000:])
     ctx.validate("", "Trace_Mux", "Trace_Mux.cfg", t, label="1..16 channels, concurrent NewChannel / Send / Recv / Close, random interleaving of the peer's packets, GOMAXPROCS 1..16, -race")
